@@ -26,7 +26,12 @@ BLOCK = 250
 RULE = ('one run = one request through WsgiApplication under one cell of '
         '(request class x protocol pair x validator x Content-Length case x '
         'read plan x block_length x max_content_length x chunked x consumer '
-        'plan); request class cycles deterministically, the other dimensions '
+        'plan x environ mode (all variables / empty ones omitted / mount point '
+        '/ wsgi.input_terminated) x resources parked in ctx.files, one of '
+        'whose close() fails); request classes include multipart/related '
+        'bodies, a failing ?wsdl build, an MTOM method and a File response '
+        'streamed from a handle with injected read errors; request class '
+        'cycles deterministically, the other dimensions '
         'are drawn from the run PRNG. A run is non-trivial when at least one '
         'stream/consumer/header fault actually fired or the request is an '
         'error class; distinct = distinct (request class, protocols, fault '
@@ -39,13 +44,18 @@ COMPONENTS = {
              'msgpack C libraries (atomic steps)'],
     'stub': ['WSGI gateway + HTTP peer (sim.gateway.call_wsgi)',
              'wsgi.input (sim.gateway.SimStream)',
-             'user service functions and listeners (sim.universe)'],
+             'user service functions and listeners (sim.universe)',
+             'files parked in ctx.files (SimFile) and the file behind a File '
+             'response (SimHandle): in-memory, with injected close / read '
+             'errors'],
 }
 ASSUMPTIONS = [
     'single caller; the schedule is the gateway plan (reads, next, close)',
     'CONTENT_LENGTH values a conforming gateway cannot produce (non-numeric, '
     'negative) are not generated',
     'with an injected read error only I1-I3 are asserted',
+    'with CONTENT_LENGTH absent "longer than max_content_length" is not '
+    'decidable within the read bound: only the bound (I6) is asserted',
     'a gateway that never calls close() (drain_no_close) is not conformant: '
     'nothing is asserted about the context then',
 ]
